@@ -191,6 +191,34 @@ static const row_t table_b7[] = {
     { 0x0041, 0x2802, NOT128, 0, K_INCLUDE,   6, -1, { 0x10,0x00, 0x12,0x00, 0xAA,0x18 } },
 };
 
+/* ---------------------------------------------------------------------------------------------- B8 (cfg 7) */
+static const row_t table_b8[] = {
+    { 0x0001, 0x2800, NOT128, 0x0003, K_PRIMARY,   2, -1, { 0xA1, 0x18 } },
+    { 0x0002, 0x2803, NOT128, 0, K_CHARDECL,  5, -1, { 0x02, 0x03,0x00, 0xA1,0x2A } },
+    { 0x0003, 0x2AA1, NOT128, 0, K_VALUE,     1, -1, { 0x01 } },
+    { 0x0004, 0x2801, NOT128, 0x0006, K_SECONDARY, 2, -1, { 0xA2, 0x18 } },
+    { 0x0005, 0x2803, NOT128, 0, K_CHARDECL,  5, -1, { 0x02, 0x06,0x00, 0xA2,0x2A } },
+    { 0x0006, 0x2AA2, NOT128, 0, K_VALUE,     1, -1, { 0x02 } },
+    { 0x0007, 0x2800, NOT128, 0x0009, K_PRIMARY,   2, -1, { 0xA3, 0x18 } },
+    { 0x0008, 0x2803, NOT128, 0, K_CHARDECL,  5, -1, { 0x02, 0x09,0x00, 0xA3,0x2A } },
+    { 0x0009, 0x2AA3, NOT128, 0, K_VALUE,     1, -1, { 0x03 } },
+};
+
+/* ---------------------------------------------------------------------------------------------- B9 (cfg 8) */
+static const row_t table_b9[] = {
+    /* secondary service D9473E00-..., second characteristic at attribute_handle<0x10>: gap 0x04..0x0f inside the service */
+    { 0x0001, 0x2801, NOT128, 0x0011, K_SECONDARY, 16, -1, S_D9 },
+    { 0x0002, 0x2803, NOT128, 0, K_CHARDECL,  5, -1, { 0x02, 0x03,0x00, 0xC1,0x2A } },
+    { 0x0003, 0x2AC1, NOT128, 0, K_VALUE,     1, -1, { 0x42 } },
+    { 0x0010, 0x2803, NOT128, 0, K_CHARDECL,  5, -1, { 0x02, 0x11,0x00, 0xC2,0x2A } },
+    { 0x0011, 0x2AC2, NOT128, 0, K_VALUE,     1, -1, { 0x43 } },
+    /* primary service 0x18B1 including it (128 bit include: first and last handle only) */
+    { 0x0012, 0x2800, NOT128, 0x0015, K_PRIMARY,   2, -1, { 0xB1, 0x18 } },
+    { 0x0013, 0x2802, NOT128, 0, K_INCLUDE,   4, -1, { 0x01,0x00, 0x11,0x00 } },
+    { 0x0014, 0x2803, NOT128, 0, K_CHARDECL,  5, -1, { 0x02, 0x15,0x00, 0xB1,0x2A } },
+    { 0x0015, 0x2AB1, NOT128, 0, K_VALUE,     1, -1, { 0x44 } },
+};
+
 #define T_MAXROWS 21
 #define NROWS(t) ((int)(sizeof(t) / sizeof((t)[0])))
 
@@ -203,7 +231,9 @@ static inline const row_t* table_of(int cfg, int* n)
     case 3:  *n = NROWS(table_b4); return table_b4;
     case 4:  *n = NROWS(table_b5); return table_b5;
     case 5:  *n = NROWS(table_b6); return table_b6;
-    default: *n = NROWS(table_b7); return table_b7;
+    case 6:  *n = NROWS(table_b7); return table_b7;
+    case 7:  *n = NROWS(table_b8); return table_b8;
+    default: *n = NROWS(table_b9); return table_b9;
     }
 }
 
